@@ -1,6 +1,700 @@
-//! C06 — not built yet.
-use crate::ev::Tier;
-pub fn main(_tier: Tier, _replay: Option<serde_json::Value>) -> i32 {
-    eprintln!("C06: check not built yet");
-    2
+//! C06 — zero-knowledge masking structure: RNG-script enumeration, real prover
+//! vs M3 (byte equality) and vs the masking formulas stated from the witness
+//! table (independent of M3's prover code).
+
+use dusk_bls12_381::{G1Affine, G1Projective};
+use dusk_bytes::Serializable;
+use dusk_plonk::prelude::{Compiler, Proof, Prover, Verifier};
+use serde_json::json;
+
+use crate::c05::{family_assignment, merged_row, solve_pis, Fam};
+use crate::ev::{Run, Tier};
+use crate::fe::*;
+use crate::m3::{self, Instance, ProofFields, ProverData, Version};
+use crate::prog::Prog;
+use crate::rng::Call;
+use crate::rows::{self, Assign, Layout, Place};
+
+const LABEL: &[u8] = b"c06";
+
+// ---------------------------------------------------------------------------
+// scripts
+// ---------------------------------------------------------------------------
+
+pub const DRAW_NAMES: [&str; 14] = ["a0", "a1", "b0", "b1", "c0", "c1", "d0", "d1", "z0", "z1", "z2", "t12", "t13", "t14"];
+
+#[derive(Clone, Debug, PartialEq, Eq)]
+pub enum Kind {
+    Base,
+    /// one draw differs from the base script
+    Single(usize),
+    /// every draw differs from the base script and from the other disjoint scripts
+    Disjoint,
+    /// informational: a draw forced to zero
+    Zero(usize),
+}
+
+#[derive(Clone, Debug)]
+pub struct Script {
+    pub name: String,
+    pub draws: [Fe; 14],
+    pub kind: Kind,
+}
+
+pub fn scripts() -> Vec<Script> {
+    let base = m3::base_draws(100);
+    let mut rho = Rho::new(seed(), 6006);
+    let mut out = vec![Script { name: "base".into(), draws: base, kind: Kind::Base }];
+    for i in 0..14 {
+        let mut r = rho.next_fe();
+        while r == zero() || base.contains(&r) {
+            r = rho.next_fe();
+        }
+        for (nm, v) in [("1", one()), ("-1", neg1()), ("rho", r)] {
+            let mut d = base;
+            d[i] = v;
+            out.push(Script { name: format!("draw{}={}", i, nm), draws: d, kind: Kind::Single(i) });
+        }
+    }
+    for i in 0..14 {
+        for j in i + 1..14 {
+            let mut d = base;
+            d[j] = base[i];
+            out.push(Script { name: format!("eq{}-{}", i, j), draws: d, kind: Kind::Single(j) });
+        }
+    }
+    for k in 1..=2u64 {
+        out.push(Script { name: format!("disjoint{}", k), draws: m3::base_draws(100 + k), kind: Kind::Disjoint });
+    }
+    // informational only: the five top blinders (degenerate, excused) and two
+    // non-top ones
+    for i in [1usize, 3, 5, 7, 10, 0, 11] {
+        let mut d = base;
+        d[i] = zero();
+        out.push(Script { name: format!("zero{}", i), draws: d, kind: Kind::Zero(i) });
+    }
+    out
+}
+
+// ---------------------------------------------------------------------------
+// circuits
+// ---------------------------------------------------------------------------
+
+/// PIs + custom gates (range, fixed-base) on 10 constraints, n = 16
+fn custom16(variant: usize) -> Prog {
+    let lay = Layout {
+        rows: vec![
+            merged_row(&[Fam::Range]),
+            rows::RowSpec::zero(),
+            merged_row(&[Fam::Fixed]),
+            rows::RowSpec::zero(),
+            merged_row(&[Fam::Arith]),
+            merged_row(&[Fam::Arith]),
+        ],
+        share: vec![],
+        place: Place::First,
+    };
+    let (r0, r1) = family_assignment(Fam::Range, 1 + variant);
+    let (f0, f1) = family_assignment(Fam::Fixed, 1 + variant);
+    let v = variant as u64;
+    let mut a = Assign::new(vec![r0, r1, f0, f1, [fe(2 + v), fe(3), fe(5), fe(7)], [fe(11), fe(13 + v), fe(17), fe(19)]], vec![zero(); 6]);
+    solve_pis(&lay, &mut a);
+    rows::prog(&lay, &a)
+}
+
+pub struct Circ {
+    pub name: &'static str,
+    pub witnesses: Vec<Prog>,
+    pub prover: Prover,
+    pub verifier: Verifier,
+    pub pd: ProverData,
+}
+
+fn circuits(tier: Tier) -> Result<Vec<Circ>, String> {
+    let pp = crate::setup::pp(64);
+    let mut specs: Vec<(&'static str, Vec<Prog>)> = vec![("arith", vec![m3::circuits::arith(3, 4), m3::circuits::arith(250, 77)])];
+    if tier == Tier::Thorough {
+        specs.push(("custom16", vec![custom16(0), custom16(1)]));
+        specs.push(("mixed32", vec![m3::circuits::mixed(32, 0), m3::circuits::mixed(32, 1)]));
+    } else {
+        specs[0].1.truncate(1);
+    }
+    let mut out = Vec::new();
+    for (name, witnesses) in specs {
+        let (prover, verifier) = Compiler::compile_with_circuit(&pp, LABEL, &witnesses[0]).map_err(|e| format!("compile {}: {:?}", name, e))?;
+        let pd = m3::parse_prover(&prover.to_bytes()).map_err(|e| format!("parse prover bytes of {}: {}", name, e))?;
+        out.push(Circ { name, witnesses, prover, verifier, pd });
+    }
+    Ok(out)
+}
+
+// ---------------------------------------------------------------------------
+// clause (c): the openings from the definition (no M3 prover code)
+// ---------------------------------------------------------------------------
+
+fn horner(p: &[Fe], x: Fe) -> Fe {
+    let mut acc = zero();
+    for c in p.iter().rev() {
+        acc = acc * x + *c;
+    }
+    acc
+}
+/// L_i(x) = prod_{j != i} (x - w^j) / (w^i - w^j), by definition.
+fn lagrange_at(pts: &[Fe], x: Fe) -> Vec<Fe> {
+    let n = pts.len();
+    (0..n)
+        .map(|i| {
+            let mut num = one();
+            let mut den = one();
+            for j in 0..n {
+                if j != i {
+                    num *= x - pts[j];
+                    den *= pts[i] - pts[j];
+                }
+            }
+            num * inv(den)
+        })
+        .collect()
+}
+/// Z_H(x) = prod_j (x - w^j), by definition.
+fn vanishing_at(pts: &[Fe], x: Fe) -> Fe {
+    let mut r = one();
+    for p in pts {
+        r *= x - *p;
+    }
+    r
+}
+fn interp_at(vals: &[Fe], lag: &[Fe]) -> Fe {
+    let mut s = zero();
+    for (v, l) in vals.iter().zip(lag) {
+        s += *v * *l;
+    }
+    s
+}
+
+/// Expected value of each of the 15 openings: unmasked value + prescribed mask.
+/// Returns (expected evaluations in proof order, unmasked values).
+fn expected_openings(pd: &ProverData, inst: &Instance, draws: &[Fe; 14], ch: &m3::Challenges) -> ([Fe; 15], [Fe; 15]) {
+    let n = pd.size;
+    // the domain, stated directly: w = ROOT_OF_UNITY^(2^(32-k))
+    let mut w = dusk_bls12_381::ROOT_OF_UNITY;
+    for _ in n.trailing_zeros()..dusk_bls12_381::TWO_ADACITY {
+        w = w * w;
+    }
+    let mut pts = Vec::with_capacity(n);
+    let mut p = one();
+    for _ in 0..n {
+        pts.push(p);
+        p *= w;
+    }
+    let z = ch.z;
+    let zw = z * w;
+    let lag_z = lagrange_at(&pts, z);
+    let lag_zw = lagrange_at(&pts, zw);
+    let zh_z = vanishing_at(&pts, z);
+    let zh_zw = vanishing_at(&pts, zw);
+    // wire columns from the witness table
+    let mut cols: [Vec<Fe>; 4] = Default::default();
+    for k in 0..4 {
+        cols[k] = vec![zero(); n];
+        for (i, row) in inst.wires.iter().enumerate() {
+            cols[k][i] = row[k];
+        }
+    }
+    // grand product from the definition; sigma values = the key's sigma
+    // polynomials evaluated on the domain
+    let ks = [fe(1), fe(7), fe(13), fe(17)];
+    let mut zvec = vec![one(); n];
+    for i in 0..n - 1 {
+        let mut num = one();
+        let mut den = one();
+        for k in 0..4 {
+            num *= cols[k][i] + ch.beta * ks[k] * pts[i] + ch.gamma;
+            den *= cols[k][i] + ch.beta * horner(&pd.sigmas[k], pts[i]) + ch.gamma;
+        }
+        zvec[i + 1] = zvec[i] * num * inv(den);
+    }
+    let wire_mask = |k: usize, x: Fe, zh: Fe| (draws[2 * k] + draws[2 * k + 1] * x) * zh;
+    let mut unmasked = [zero(); 15];
+    let mut exp = [zero(); 15];
+    for (e, k) in [(m3::E_A, 0usize), (m3::E_B, 1), (m3::E_C, 2), (m3::E_D, 3)] {
+        unmasked[e] = interp_at(&cols[k], &lag_z);
+        exp[e] = unmasked[e] + wire_mask(k, z, zh_z);
+    }
+    for (e, k) in [(m3::E_AW, 0usize), (m3::E_BW, 1), (m3::E_DW, 3)] {
+        unmasked[e] = interp_at(&cols[k], &lag_zw);
+        exp[e] = unmasked[e] + wire_mask(k, zw, zh_zw);
+    }
+    unmasked[m3::E_Z] = interp_at(&zvec, &lag_zw);
+    exp[m3::E_Z] = unmasked[m3::E_Z] + (draws[8] + draws[9] * zw + draws[10] * zw * zw) * zh_zw;
+    // key polynomials: no mask
+    for (e, poly) in [
+        (m3::E_QARITH, &pd.selectors[6]),
+        (m3::E_QC, &pd.selectors[5]),
+        (m3::E_QL, &pd.selectors[1]),
+        (m3::E_QR, &pd.selectors[2]),
+        (m3::E_S1, &pd.sigmas[0]),
+        (m3::E_S2, &pd.sigmas[1]),
+        (m3::E_S3, &pd.sigmas[2]),
+    ] {
+        unmasked[e] = horner(poly, z);
+        exp[e] = unmasked[e];
+    }
+    (exp, unmasked)
+}
+
+// ---------------------------------------------------------------------------
+// one case = (circuit, witness, script)
+// ---------------------------------------------------------------------------
+
+#[derive(Clone, Debug)]
+pub struct CaseOut {
+    pub real: Result<Vec<u8>, String>,
+    pub calls: Vec<Call>,
+    pub verified: Option<Result<(), String>>,
+    pub m3: Result<Vec<u8>, String>,
+    pub fields: Option<ProofFields>,
+    /// names of openings that differ from unmasked + mask; number evaluated
+    pub bad_openings: Vec<String>,
+    pub openings_checked: usize,
+    /// number of masked openings whose mask term was non-zero
+    pub masks_nonzero: usize,
+}
+
+fn run_case(c: &Circ, wi: usize, s: &Script) -> CaseOut {
+    // own clone: the snapshot cell inside a Prog must not be shared by workers
+    let prog = &c.witnesses[wi].with_overrides(vec![]);
+    let (real, pis, calls) = match m3::real_prove(&c.prover, prog, &s.draws, Version::V3) {
+        Ok((b, p, calls)) => (Ok(b), p, calls),
+        Err(e) => (Err(e), vec![], vec![]),
+    };
+    // the RNG log is wanted even when the prover fails: prove again to collect it
+    let calls = if real.is_err() {
+        let mut rng = crate::rng::ScriptedRng::new(s.draws.to_vec());
+        let _ = c.prover.prove(&mut rng, prog);
+        rng.calls
+    } else {
+        calls
+    };
+    let snap = prog.last_snapshot().expect("snapshot of the proving run");
+    let inst = Instance::from_snapshot(&snap);
+    let m3r = m3::prove(&c.pd, &inst, &s.draws, Version::V3, &m3::Adversary::default()).map(|(b, _)| b);
+    let mut out = CaseOut { real: real.clone(), calls, verified: None, m3: m3r, fields: None, bad_openings: vec![], openings_checked: 0, masks_nonzero: 0 };
+    if let Ok(bytes) = &real {
+        let arr: [u8; 1008] = bytes.clone().try_into().expect("1008 proof bytes");
+        let proof = <Proof as Serializable<1008>>::from_bytes(&arr).expect("own proof decodes");
+        out.verified = Some(c.verifier.verify(&proof, &pis).map_err(|e| format!("{:?}", e)));
+        let fields = m3::decode_proof(bytes).expect("proof fields decode");
+        // challenges re-derived verifier-style from the REAL proof bytes
+        let ch = m3::challenges_from_proof(&c.pd, &fields, &pis, Version::V3);
+        let (exp, unmasked) = expected_openings(&c.pd, &inst, &s.draws, &ch);
+        for e in 0..15 {
+            out.openings_checked += 1;
+            if fields.evals[e] != exp[e] {
+                out.bad_openings.push(m3::EVAL_NAMES[e].to_string());
+            }
+        }
+        for e in [m3::E_A, m3::E_B, m3::E_C, m3::E_D, m3::E_AW, m3::E_BW, m3::E_DW, m3::E_Z] {
+            if exp[e] != unmasked[e] {
+                out.masks_nonzero += 1;
+            }
+        }
+        out.fields = Some(fields);
+    }
+    out
+}
+
+// ---------------------------------------------------------------------------
+// clause (d): what a change of draw i may and must touch
+// ---------------------------------------------------------------------------
+
+/// Field index: 0..11 commitments (proof order), 11..26 evaluations.
+fn field_name(k: usize) -> &'static str {
+    if k < 11 {
+        m3::COMM_NAMES[k]
+    } else {
+        m3::EVAL_NAMES[k - 11]
+    }
+}
+fn field_eq(a: &ProofFields, b: &ProofFields, k: usize) -> bool {
+    if k < 11 {
+        a.comms[k] == b.comms[k]
+    } else {
+        a.evals[k - 11] == b.evals[k - 11]
+    }
+}
+/// Commitments that must stay untouched when only draw i changes.
+fn untouched(i: usize) -> Vec<usize> {
+    match i {
+        0..=7 => (0..4).filter(|k| *k != i / 2).collect(),
+        8..=10 => vec![m3::C_A, m3::C_B, m3::C_C, m3::C_D],
+        11 => vec![m3::C_A, m3::C_B, m3::C_C, m3::C_D, m3::C_Z, m3::C_THIGH, m3::C_TFOURTH],
+        12 => vec![m3::C_A, m3::C_B, m3::C_C, m3::C_D, m3::C_Z, m3::C_TLOW, m3::C_TFOURTH],
+        13 => vec![m3::C_A, m3::C_B, m3::C_C, m3::C_D, m3::C_Z, m3::C_TLOW, m3::C_TMID],
+        _ => unreachable!(),
+    }
+}
+/// Exact commitment differences prescribed by the mask: (field, point index of
+/// the +delta term, point index of the -delta term or none).
+fn prescribed_deltas(i: usize, n: usize) -> Vec<(usize, Option<usize>, Option<usize>)> {
+    match i {
+        0..=7 => vec![(i / 2, Some(n + i % 2), Some(i % 2))],
+        8..=10 => vec![(m3::C_Z, Some(n + (i - 8)), Some(i - 8))],
+        // t_k gets +b X^n, t_(k+1) gets -b
+        11..=13 => vec![(m3::C_TLOW + (i - 11), Some(n), None), (m3::C_TLOW + (i - 10), None, Some(0))],
+        _ => unreachable!(),
+    }
+}
+/// Evaluations of constant key polynomials are the same at every point.
+fn exempt_evals(pd: &ProverData) -> Vec<usize> {
+    let mut v = vec![];
+    for (e, poly) in [(m3::E_QARITH, &pd.selectors[6]), (m3::E_QC, &pd.selectors[5]), (m3::E_QL, &pd.selectors[1]), (m3::E_QR, &pd.selectors[2])] {
+        if m3::ptrim(poly).len() <= 1 {
+            v.push(11 + e);
+        }
+    }
+    v
+}
+
+struct Finding {
+    clause: &'static str,
+    what: String,
+}
+
+/// All clauses for one case (the base case of the same circuit/witness given).
+fn judge(c: &Circ, s: &Script, base_draws: &[Fe; 14], o: &CaseOut, base: &CaseOut, disjoint: &[(&Script, &CaseOut)], clauses: &mut u64) -> Vec<Finding> {
+    let mut f = Vec::new();
+    // (a) RNG consumption
+    *clauses += 1;
+    let want: Vec<Call> = (0..14).map(|_| Call::FillBytes(64)).collect();
+    if o.calls != want {
+        f.push(Finding { clause: "clause-a", what: format!("RNG calls {:?}, expected 14 x fill_bytes(64)", summarize_calls(&o.calls)) });
+    }
+    let bytes = match &o.real {
+        Ok(b) => b,
+        Err(e) => {
+            f.push(Finding { clause: "prove", what: format!("real prover failed on a satisfied instance with non-zero draws: {}", e) });
+            return f;
+        }
+    };
+    // verification
+    *clauses += 1;
+    if let Some(Err(e)) = &o.verified {
+        f.push(Finding { clause: "verify", what: format!("real proof rejected by the verifier: {}", e) });
+    }
+    // (b) byte equality with M3
+    *clauses += 1;
+    match &o.m3 {
+        Ok(m) if m == bytes => {}
+        Ok(m) => {
+            let diff: Vec<&str> = (0..26)
+                .filter(|k| {
+                    let (off, l) = if *k < 11 { (k * 48, 48) } else { (528 + (k - 11) * 32, 32) };
+                    m[off..off + l] != bytes[off..off + l]
+                })
+                .map(field_name)
+                .collect();
+            f.push(Finding { clause: "clause-b", what: format!("proof bytes differ from M3 in fields {:?}", diff) });
+        }
+        Err(e) => f.push(Finding { clause: "clause-b", what: format!("M3 failed: {}", e) }),
+    }
+    // (c) openings = unmasked + mask
+    *clauses += 1;
+    if !o.bad_openings.is_empty() {
+        f.push(Finding { clause: "clause-c", what: format!("openings differ from unmasked value + prescribed mask: {:?}", o.bad_openings) });
+    }
+    let fields = o.fields.as_ref().expect("fields of a produced proof");
+    // (d) differential against the base script
+    if let (Kind::Single(i), Some(bf)) = (&s.kind, base.fields.as_ref()) {
+        let i = *i;
+        *clauses += 1;
+        let keep = untouched(i);
+        let exempt = exempt_evals(&c.pd);
+        let mut wrong_changed = vec![];
+        let mut wrong_same = vec![];
+        for k in 0..26 {
+            let same = field_eq(fields, bf, k);
+            if keep.contains(&k) {
+                if !same {
+                    wrong_changed.push(field_name(k));
+                }
+            } else if same && !exempt.contains(&k) {
+                wrong_same.push(field_name(k));
+            }
+        }
+        if !wrong_changed.is_empty() || !wrong_same.is_empty() {
+            f.push(Finding {
+                clause: "clause-d",
+                what: format!("changing draw {} ({}): fields that must stay but changed {:?}; fields that must change but stayed {:?}", i, DRAW_NAMES[i], wrong_changed, wrong_same),
+            });
+        }
+        // exact commitment difference = delta * (P_hi - P_lo)
+        *clauses += 1;
+        let delta = s.draws[i] - base_draws[i];
+        let mut bad = vec![];
+        for (k, hi, lo) in prescribed_deltas(i, c.pd.size) {
+            let mut want = G1Projective::from(bf.comms[k]);
+            if let Some(h) = hi {
+                want += G1Projective::from(c.pd.commit_key[h]) * delta;
+            }
+            if let Some(l) = lo {
+                want -= G1Projective::from(c.pd.commit_key[l]) * delta;
+            }
+            if G1Affine::from(want) != fields.comms[k] {
+                bad.push(field_name(k));
+            }
+        }
+        if !bad.is_empty() {
+            f.push(Finding { clause: "clause-d-delta", what: format!("changing draw {} ({}) by delta: commitments {:?} did not move by delta*(P_(n+k) - P_k)", i, DRAW_NAMES[i], bad) });
+        }
+    }
+    // (e) disjoint scripts share nothing
+    if s.kind == Kind::Disjoint || s.kind == Kind::Base {
+        let exempt = exempt_evals(&c.pd);
+        for (os, oo) in disjoint {
+            if os.name >= s.name {
+                continue;
+            }
+            let Some(of) = oo.fields.as_ref() else { continue };
+            *clauses += 1;
+            let mut shared = vec![];
+            for a in 0..11 {
+                for b in 0..11 {
+                    if fields.comms[a] == of.comms[b] {
+                        shared.push(format!("{}={}", m3::COMM_NAMES[a], m3::COMM_NAMES[b]));
+                    }
+                }
+            }
+            for a in 0..15 {
+                for b in 0..15 {
+                    if exempt.contains(&(11 + a)) || exempt.contains(&(11 + b)) {
+                        continue;
+                    }
+                    if fields.evals[a] == of.evals[b] {
+                        shared.push(format!("{}={}", m3::EVAL_NAMES[a], m3::EVAL_NAMES[b]));
+                    }
+                }
+            }
+            if !shared.is_empty() {
+                f.push(Finding { clause: "clause-e", what: format!("proofs under disjoint scripts {} and {} share {:?}", s.name, os.name, shared) });
+            }
+        }
+    }
+    // within one proof no two commitments and no two masked openings coincide
+    *clauses += 1;
+    let mut dup = vec![];
+    for a in 0..11 {
+        for b in a + 1..11 {
+            if fields.comms[a] == fields.comms[b] {
+                dup.push(format!("{}={}", m3::COMM_NAMES[a], m3::COMM_NAMES[b]));
+            }
+        }
+    }
+    if !dup.is_empty() {
+        f.push(Finding { clause: "clause-e-within", what: format!("one proof repeats a commitment: {:?}", dup) });
+    }
+    f
+}
+
+fn summarize_calls(calls: &[Call]) -> String {
+    let fills = calls.iter().filter(|c| matches!(c, Call::FillBytes(64))).count();
+    let other: Vec<&Call> = calls.iter().filter(|c| !matches!(c, Call::FillBytes(64))).take(4).collect();
+    format!("{} calls: {} x fill_bytes(64), others {:?}", calls.len(), fills, other)
+}
+
+fn case_json(c: &Circ, wi: usize, s: &Script) -> serde_json::Value {
+    json!({"circuit": c.name, "witness": wi, "script": s.name, "draws": s.draws.iter().map(hex).collect::<Vec<_>>()})
+}
+
+pub fn main(tier: Tier, replay: Option<serde_json::Value>) -> i32 {
+    let mut run = Run::new("C06", tier, "model_checking");
+    run.rule = "cases = circuits x witnesses x RNG scripts (base; each of the 14 draws replaced by 1, -1, rho; every pair of draws forced equal; two fully disjoint scripts; informational zero-draw scripts); every case runs the real prover under the scripted RNG, the reference prover M3 on the parsed keys, and the masking formulas from the witness table; non-trivial = distinct (circuit, witness, script) whose real proof was produced and judged".into();
+    let circs = match circuits(tier) {
+        Ok(c) => c,
+        Err(e) => {
+            run.machinery(e);
+            return run.finish();
+        }
+    };
+    let scr = scripts();
+    let mandatory = scr.iter().filter(|s| !matches!(s.kind, Kind::Zero(_)) && s.kind != Kind::Disjoint).count();
+    run.bound("scripts_mandatory", json!(mandatory));
+    run.bound("scripts_total", json!(scr.len()));
+    run.bound("circuits", json!(circs.iter().map(|c| format!("{} (n={}, constraints={}, witnesses={})", c.name, c.pd.size, c.pd.constraints, c.witnesses.len())).collect::<Vec<_>>()));
+
+    // case list
+    let mut cases: Vec<(usize, usize, usize)> = Vec::new();
+    for (ci, c) in circs.iter().enumerate() {
+        for wi in 0..c.witnesses.len() {
+            for si in 0..scr.len() {
+                cases.push((ci, wi, si));
+            }
+        }
+    }
+    if let Some(r) = &replay {
+        run.set_replay_mode();
+        let (cn, wi, sn) = (r["case"]["circuit"].as_str().unwrap_or(""), r["case"]["witness"].as_u64().unwrap_or(0) as usize, r["case"]["script"].as_str().unwrap_or(""));
+        let Some(ci) = circs.iter().position(|c| c.name == cn) else {
+            run.machinery(format!("replay circuit {} not built in tier {} (use thorough)", cn, tier.name()));
+            return run.finish();
+        };
+        cases.retain(|(c, w, s)| *c == ci && *w == wi && (scr[*s].name == sn || scr[*s].kind == Kind::Base || scr[*s].kind == Kind::Disjoint));
+        if !cases.iter().any(|(_, _, s)| scr[*s].name == sn) {
+            run.machinery(format!("replay script {} not in enumeration", sn));
+            return run.finish();
+        }
+    }
+
+    let outs = crate::par::par_map(&cases, |(ci, wi, si)| {
+        run_case(&circs[*ci], *wi, &scr[*si])
+    });
+    let mut results: Vec<Option<CaseOut>> = Vec::new();
+    for ((ci, wi, si), o) in cases.iter().zip(outs) {
+        match o {
+            Ok(o) => results.push(Some(o)),
+            Err(p) => {
+                run.machinery(format!("harness panic in case {}/{}/{}: {}", circs[*ci].name, wi, scr[*si].name, p));
+                results.push(None);
+            }
+        }
+    }
+    let find = |ci: usize, wi: usize, pred: &dyn Fn(&Script) -> bool| -> Vec<(usize, &CaseOut)> {
+        cases
+            .iter()
+            .zip(results.iter())
+            .filter(|((c, w, s), r)| *c == ci && *w == wi && pred(&scr[*s]) && r.is_some())
+            .map(|((_, _, s), r)| (*s, r.as_ref().unwrap()))
+            .collect()
+    };
+
+    let replay_script: Option<String> = replay.as_ref().map(|r| r["case"]["script"].as_str().unwrap_or("").to_string());
+    let mut clauses = 0u64;
+    let mut draw_changed = [0u64; 14];
+    let mut draw_judged = [0u64; 14];
+    let mut min_openings = usize::MAX;
+    let mut min_masks = usize::MAX;
+    let mut reported: std::collections::HashMap<String, u32> = std::collections::HashMap::new();
+    let mut per_circuit_compared: std::collections::BTreeMap<&str, u64> = Default::default();
+    for ((ci, wi, si), res) in cases.iter().zip(results.iter()) {
+        let Some(o) = res else { continue };
+        let (c, s) = (&circs[*ci], &scr[*si]);
+        run.states += 1;
+        run.evaluations += 1;
+        let base = find(*ci, *wi, &|s| s.kind == Kind::Base);
+        let Some((_, base)) = base.first().copied() else {
+            run.machinery(format!("no base case for {}/{}", c.name, wi));
+            continue;
+        };
+        if let Some(t) = &replay_script {
+            // base / disjoint cases only serve as references in replay mode
+            if &s.name != t {
+                continue;
+            }
+        }
+        if let Kind::Zero(i) = s.kind {
+            // informational only
+            let outcome = match (&o.real, &o.verified) {
+                (Err(_), _) => "prover-error",
+                (Ok(_), Some(Ok(()))) => "proof-verifies",
+                (Ok(_), _) => "proof-invalid",
+            };
+            let eq = match (&o.real, &o.m3) {
+                (Ok(a), Ok(b)) if a == b => "m3-equal",
+                (Ok(_), Ok(_)) => "m3-differs",
+                _ => "m3-n/a",
+            };
+            run.outcome(&format!("info:zero-{}:{}:{}", DRAW_NAMES[i], outcome, eq));
+            continue;
+        }
+        let dis_owned = find(*ci, *wi, &|s| s.kind == Kind::Disjoint || s.kind == Kind::Base);
+        let dis: Vec<(&Script, &CaseOut)> = dis_owned.iter().map(|(si, o)| (&scr[*si], *o)).collect();
+        let findings = judge(c, s, &scr[0].draws, o, base, &dis, &mut clauses);
+        if o.real.is_ok() {
+            run.traces_validated += 1;
+            *per_circuit_compared.entry(c.name).or_insert(0) += 1;
+            run.nontrivial(fnv(format!("{}|{}|{}", c.name, wi, s.name).as_bytes()));
+            min_openings = min_openings.min(o.openings_checked);
+            min_masks = min_masks.min(o.masks_nonzero);
+            if let (Kind::Single(i), Ok(b), Ok(bb)) = (&s.kind, &o.real, &base.real) {
+                draw_judged[*i] += 1;
+                if b != bb {
+                    draw_changed[*i] += 1;
+                }
+            }
+        }
+        run.outcome(if findings.is_empty() { "case:ok" } else { "case:findings" });
+        if run.samples.len() < 6 && *si % 29 == 0 {
+            run.sample(json!({"circuit": c.name, "witness": wi, "script": s.name, "openings_checked": o.openings_checked, "rng_calls": o.calls.len(), "m3_equal": o.m3.as_ref().ok() == o.real.as_ref().ok()}));
+        }
+        for fd in findings {
+            run.outcome(&format!("{}:fail", fd.clause));
+            // coarse, stable signatures: at most three scripts per (clause, circuit)
+            let key = format!("{}/circuit={}", fd.clause, c.name);
+            let cnt = reported.entry(key.clone()).or_insert(0);
+            if *cnt >= 3 && replay.is_none() {
+                continue;
+            }
+            *cnt += 1;
+            let sig = if fd.clause == "clause-a" { format!("clause-a/calls/circuit={}/script={}", c.name, s.name) } else { format!("{}/script={}", key, s.name) };
+            run.violation(&sig, &format!("{} witness {} script {}: {}", c.name, wi, s.name, fd.what), case_json(c, *wi, s));
+        }
+    }
+    run.transitions = clauses;
+    if replay.is_some() {
+        println!("replay: {} cases re-judged, {} violations", run.states, run.violations);
+        return run.finish();
+    }
+    if tier == Tier::Thorough {
+        // byte equality real prover = M3 on six more circuits (range gadget,
+        // logic rows, component_add_point, all-widget circuits of n = 32 and
+        // n = 64), under V3 and the V2 legacy transcript seeding
+        run.transitions += 1;
+        match m3::selftest() {
+            Ok(()) => {
+                run.outcome("m3-selftest:ok");
+                run.traces_validated += 12;
+            }
+            Err(e) => run.violation("clause-b/m3-selftest", &format!("real prover and M3 disagree: {}", e), json!({"circuit": "arith", "witness": 0, "script": "base", "selftest": e})),
+        }
+    }
+    for i in 0..14 {
+        // vacuity: the differential was exercised for every draw index ...
+        run.gate(&format!("draw {} ({}) had >=1 judged script that changes it", i, DRAW_NAMES[i]), draw_judged[i] > 0);
+        // ... and a draw whose change never changes the proof is not masking anything
+        if draw_judged[i] > 0 && draw_changed[i] == 0 {
+            run.violation(
+                &format!("clause-d/draw-without-effect/draw={}", i),
+                &format!("none of the {} scripts that change draw {} ({}) changed the proof: the scalar is drawn but not used", draw_judged[i], i, DRAW_NAMES[i]),
+                json!({"circuit": circs[0].name, "witness": 0, "script": format!("draw{}=rho", i)}),
+            );
+        }
+    }
+    run.gate("clause (c) evaluated >= 15 openings per proof", min_openings != usize::MAX && min_openings >= 15);
+    run.gate("all 8 masked openings carry a non-zero mask in every proof", min_masks != usize::MAX && min_masks == 8);
+    for c in &circs {
+        run.gate(&format!(">=1 real proof of {} compared with M3", c.name), per_circuit_compared.get(c.name).copied().unwrap_or(0) > 0);
+    }
+    run.gate(">= 134 mandatory scripts", mandatory >= 134);
+    run.extra.insert("draw_change_changed_proof".into(), json!(DRAW_NAMES.iter().zip(draw_changed.iter()).map(|(n, c)| (n.to_string(), *c)).collect::<std::collections::BTreeMap<_, _>>()));
+    run.extra.insert("min_openings_checked_per_proof".into(), json!(if min_openings == usize::MAX { 0 } else { min_openings }));
+    run.extra.insert(
+        "clause_d_prediction".into(),
+        json!({
+            "draws 0..7 (wire k = i/2)": "wire commitment k moves by delta*(P_(n+e) - P_e), e = i%2; the other three wire commitments stay; everything else changes",
+            "draws 8..10": "a..d commitments stay; z_comm moves by delta*(P_(n+e) - P_e), e = i-8; everything after changes",
+            "draw 11 (b12)": "t_low += delta*P_n, t_mid -= delta*P_0; a..d, z, t_high, t_fourth commitments stay; evaluations and W change",
+            "draw 12 (b13)": "t_mid += delta*P_n, t_high -= delta*P_0; a..d, z, t_low, t_fourth stay",
+            "draw 13 (b14)": "t_high += delta*P_n, t_fourth -= delta*P_0; a..d, z, t_low, t_mid stay",
+            "exempt": "evaluations of constant key polynomials (q_* with <= 1 coefficient)",
+        }),
+    );
+    run.assumptions = vec![
+        "M3 (naive reference prover on the parsed keys) is the statement of the honest proving algorithm".into(),
+        "challenges for clause (c) are re-derived verifier-style from the REAL proof bytes with M3's literal transcript table (m3::challenges_from_proof); M2 was not available when this check was built".into(),
+        "sigma values and selector/sigma openings are taken from the polynomials the real prover key states (correctness of preprocessing is C01/C03/C05)".into(),
+        "hash collisions / accidental equality of independent field elements (prob ~2^-250) do not occur".into(),
+        "zero draws are informational only: a zero top blinder is the excused degenerate case".into(),
+        "this decides the masking structure; statistical zero-knowledge is not re-proved".into(),
+    ];
+    run.finish()
 }
